@@ -215,12 +215,24 @@ def check_single(kw):
         out.append(({"kind": "exception", "op": "from_dict", "exc": type(e).__name__}, f"from_dict(dict()) raised for {kw}: {e!r}"))
     toks = r.to_slurm_options().split()
     vals = [t.split("=", 1)[1] for t in toks if "=" in t]
-    for q in QUANT:
-        v = getattr(r, q)
-        if v is None or v == 0:
-            continue
-        if not any(x in (str(v), f"gpu:{v}") for x in vals):
-            out.append(({"kind": "slurm-missing", "op": "to_slurm_options", "quantity": q}, f"to_slurm_options() of {kw} = {toks} does not mention {q}={v}"))
+    # every quantity that is set needs a token of its OWN (nodes=2 is not mentioned by "--gres=gpu:2" or by the token
+    # that mentions cpus_per_node=2): an injective assignment quantity -> token carrying its value
+    need = [(q, getattr(r, q)) for q in QUANT if getattr(r, q) not in (None, 0)]
+
+    def fits(q, v, x):
+        return x == f"gpu:{v}" or (x == str(v) and q != "gpus") or (q == "gpus" and x == str(v))
+
+    def assign(i, used):
+        if i == len(need):
+            return True
+        q, v = need[i]
+        return any(k not in used and fits(q, v, x) and assign(i + 1, used | {k}) for k, x in enumerate(vals))
+
+    if not assign(0, frozenset()):
+        missing = [q for q, v in need if not any(fits(q, v, x) for x in vals)] or [need[-1][0]]
+        q = missing[0]
+        out.append(({"kind": "slurm-missing", "op": "to_slurm_options", "quantity": q},
+                    f"to_slurm_options() of {kw} = {toks} does not mention every set quantity ({dict(need)}) with a token of its own: {q} is missing"))
     for k, v in r.extra_args.items():
         if f"--{k}={v}" not in toks:
             out.append(({"kind": "slurm-missing", "op": "to_slurm_options", "quantity": "extra_args"}, f"to_slurm_options() of {kw} misses --{k}={v}"))
